@@ -449,6 +449,8 @@ def profiles(tier, seed, light=False, focus=None):
         # C19: the tables of HeavyHitters / StreamThreshold keep hidden state across clear(): their histories keep the full depth
         P = [dict(p, ntables=min(p["ntables"], 2), maxdepth=p["maxdepth"] if (focus == "C19" and p.get("histview")) else min(p["maxdepth"], 4))
              for p in P if not p.get("patch_limits")]
+    if light and tier == "thorough":
+        P = [dict(p, ntables=max(2, p["ntables"] // 3)) if p["ntables"] > 1 else p for p in P if not p.get("patch_limits") and not p.get("exhaustive")]
     for i, p in enumerate(P):
         if p.get("strategy"):
             p["tables"] = [strategy_table(p["strategy"], p["keys"], p["D"], p["W"])]
